@@ -477,3 +477,9 @@ Proof.
   rewrite (nth_error_perform_top s [] (new_desc m) [] c rest q HS HQ). f_equal.
   rewrite on_queue_eq; [reflexivity|]. eapply wf_nth; eauto.
 Qed.
+
+Lemma stop_nowith : forall b s, no_with b = true -> queues (fst (exec (Stop b) s)) = queues s.
+Proof.
+  intros b s H. pose proof (exec_nostack b (mk (heap s) (queues s) []) H eq_refl) as E.
+  simpl in *. destruct (exec b _); exact E.
+Qed.
